@@ -143,6 +143,27 @@ theorem bsearchOk_iff (xs : List α) (x : α) (r : Int) : bsearchOk c xs x r = t
 
 end bsearch
 
+theorem mem_takeWhile_true {α : Type} (p : α → Bool) : ∀ (l : List α) (y : α), y ∈ l.takeWhile p → p y = true
+  | [], _, h => by cases h
+  | x :: xs, y, h => by
+    rw [List.takeWhile_cons] at h
+    split at h
+    · next hx =>
+      rcases List.mem_cons.1 h with rfl | h
+      · exact hx
+      · exact mem_takeWhile_true p xs y h
+    · cases h
+
+/-- a list splits at the first element that does not satisfy `p` -/
+theorem split_at_first_not {α : Type} (p : α → Bool) (xs : List α) :
+    ∃ T D, xs = T ++ D ∧ (∀ y ∈ T, p y = true) ∧ (∀ y, D.head? = some y → p y = false) ∧
+      (xs.takeWhile p).length = T.length := by
+  refine ⟨xs.takeWhile p, xs.dropWhile p, List.takeWhile_append_dropWhile.symm, mem_takeWhile_true p xs, ?_, rfl⟩
+  intro y hy
+  have := List.head?_dropWhile_not p xs
+  rw [hy] at this
+  exact this
+
 /-! ### prefixes and suffixes of byte strings -/
 
 theorem isPrefixOf_iff_append (s a : List UInt8) : s.isPrefixOf a = true ↔ ∃ r, a = s ++ r := by
